@@ -415,6 +415,7 @@ def run(R):
     r8(R, ents)
     r9(R)
     r10(R)
+    r11(R)
 
 
 def certify(R, prog, bodies, rule):
@@ -1258,3 +1259,44 @@ def r10(R):
          % (sorted(repr(chr(c)) for c in chars & {10, 13}), "; delegated to str::lines" if "lines" in names else ""), ok, where=b.where(hashes[0].ln),
          detail=None if ok else "a comment closed by a lone carriage return swallows the query text up to the next line feed: the request is accepted "
          "with a different structure, or text that is neither comment nor SPARQL is accepted after the query")
+
+
+def r11(R):
+    """the re-tokeniser of quoted-triple source text knows the parser's comment syntax"""
+    prog = R.prog
+    from c14 import _char_consts
+    R.rule("C16-R11", "raw slices are re-read with the parser's own layout rules: the parser keeps an RDF-star quoted triple as its complete source "
+                      "slice (layout and comments included) and every consumer re-tokenises that text with "
+                      "SparqlDatabase::split_quoted_triple_content. That tokeniser therefore dispatches on the comment introducer `#` and on both "
+                      "line terminators, as sparql_skip_ws does - otherwise a comment inside `<< >>`, which the parser accepts, becomes "
+                      "tokens of the triple (the statement is stored or matched with other terms: a comment-dependent tree)")
+    sp = prog.one("sparql_database::SparqlDatabase::split_quoted_triple_content", crate="kolibrie")
+    if not R.anchor("C16-R11", "split_quoted_triple_content", sp):
+        return
+    R.saw(sp)
+    callers = sorted({x.root if x.is_closure else x.key for x in prog.bodies.values() if "::tests::" not in x.key and any(c.key == sp.key for c in x.calls())})
+    R.floor("C16-R11", "consumers that re-tokenise a quoted triple", len(callers), 3)
+    # the parser hands out the raw slice: sparql_quoted_triple computes its result from the remainder's length
+    qt = prog.one("parser::sparql_quoted_triple", crate="kolibrie")
+    if R.anchor("C16-R11", "sparql_quoted_triple", qt):
+        raw = any(c.name() == "index" for c in qt.calls()) and sum(1 for c in qt.calls() if c.name() == "len") >= 2
+        R.ob("C16-R11", "raw-slice", "sparql_quoted_triple returns the source slice it measured (so the consumers see layout and comments)", raw, where=qt.where())
+    scope, work = set(), [sp.key]
+    while work:
+        k = work.pop()
+        if k in scope or k not in prog.bodies:
+            continue
+        scope.add(k)
+        for x in prog.family(k):
+            for c in x.calls():
+                if c.key in prog.bodies and prog.bodies[c.key].crate == "kolibrie" and c.key not in scope:
+                    work.append(c.key)
+    chars = set()
+    for k in scope:
+        chars |= (_char_consts(prog, prog.bodies[k]) or set())
+    ok = {35, 10, 13} <= chars
+    R.ob("C16-R11", "comment-aware", "split_quoted_triple_content dispatches on `#`, CR and LF (characters it distinguishes: %s)"
+         % sorted(repr(chr(c)) for c in chars if c < 128), ok, where=sp.where(),
+         detail=None if ok else "`INSERT DATA { << <urn:s> # note\\n <urn:p> \"v\" >> <urn:q> <urn:o> }` is accepted by the parser; the consumers split the "
+         "kept text at blanks only, so `#` and the words of the comment become the predicate and object of the quoted triple (nothing "
+         "sensible is stored, the same pattern in a WHERE clause matches nothing)")
